@@ -388,6 +388,17 @@ fn c08_io_read_at() {
 // ---------------------------------------------------------------------------
 fn io_entry(s0: u8, s1: u8) {
     let (o, s, chunks) = two_chunks_sized(s0, s1);
+    io_entry_at(o, s, chunks, false);
+}
+/// the same with a CONCRETE descending layout (a reordering reader runs a sort, which CBMC only gets through on
+/// concrete values)
+fn io_entry_desc() {
+    let mut v = Vec::with_capacity(2);
+    v.push(ChunkOffset::new(17, 2));
+    v.push(ChunkOffset::new(3, 3));
+    io_entry_at([17, 3], [2, 3], v, true);
+}
+fn io_entry_at(o: [u64; 2], s: [usize; 2], chunks: Vec<ChunkOffset>, concrete: bool) {
     let cur: u64 = kani::any();
     kani::assume(cur < 24);
     let mut m = mock(cur, 5); // the first read answers Pending: stop right after the seek
@@ -400,9 +411,14 @@ fn io_entry(s0: u8, s1: u8) {
     assert!(r.chunk_index == 0 && r.chunks.len() == 2);
     assert!(r.chunks[1].offset == o[1] && r.chunks[1].size == s[1], "the rest of the list is untouched");
     kani::cover!(o[1] < o[0]); // stored in descending order
-    kani::cover!(o[0] + s[0] as u64 == o[1]); // adjacent
+    kani::cover!(concrete || o[0] + s[0] as u64 == o[1]); // adjacent
     std::mem::forget(res);
     std::mem::forget(r);
+}
+#[kani::proof]
+#[kani::unwind(8)]
+fn c17_io_read_chunks_entry_desc() {
+    io_entry_desc();
 }
 #[kani::proof]
 #[kani::unwind(5)]
